@@ -156,6 +156,19 @@ def do_prop(a):
 
             error_tasks.append({"target": "bounded-stage", "cfg_label": "-", "message": "%s: %s\n%s" % (type(e).__name__, e, traceback.format_exc(limit=6))})
 
+    # proxy-vs-native cross execution of the trusted base (thorough tier)
+    cross = {"ran": False}
+    if a.tier == "thorough" and not a.no_bounded and not a.only:
+        from . import crossexec
+
+        try:
+            cross = crossexec.run(pm.TARGETS, a.tier, seed)
+            cross["ran"] = True
+            for d in cross["disagreements"]:
+                error_tasks.append({"target": d["target"], "cfg_label": "cross-execution", "message": "proxy and native execution disagree: %s on %s" % (d["what"], str(d["inputs"])[:300])})
+        except Exception as e:
+            error_tasks.append({"target": "cross-execution", "cfg_label": "-", "message": "%s: %s" % (type(e).__name__, e)})
+
     # known findings
     lines = []
     violations = []
@@ -275,6 +288,7 @@ def do_prop(a):
             "checker_errors": [{"target": t["target"], "cfg": t.get("cfg_label"), "why": t["message"][:600]} for t in error_tasks] + vac_errors,
             "vacuity": {"covers": covers, "canary": "every path's assumptions+path condition checked satisfiable (else checker error)", "errors": vac_errors},
             "bounded": bounded,
+            "proxy_vs_native_cross_execution": {k: cross.get(k) for k in ("ran", "agree", "skipped", "per_function")} if cross.get("ran") else {"ran": False, "note": "thorough tier only"},
             "known_findings_reproduced": sorted(known_hit),
             "tree": {"repo": REPO, "rev": git_rev(REPO), "dirty": tree_dirty(REPO)},
             "exit_status": status,
